@@ -23,6 +23,7 @@ CORE = [
     ["MAIN JA"],
     ["THREAD 1 M A", "MAIN L1 P P P I JA"],
     ["THREAD 1 M", "THREAD 2 M", "MAIN L1 I L2 P I JA"],
+    ["THREAD 1 M1000 A", "THREAD 2 J1000n", "THREAD 3 M0n L1", "MAIN L3 L2 J2 JA"],
 ]
 
 
@@ -45,7 +46,9 @@ def random_scenario(rng):
         if rng.random() < 0.3:
             ops.append("P")
         rng.shuffle(ops)
-        lines.append(("THREAD %d %s %s" % (i, kinds[i], " ".join(ops))).rstrip())
+        # thread options: pinned to a cpu that exists / that does not exist (the library then retries unpinned), named
+        opt = rng.choice(["", "", "", "", "0", "1000", "1000", "n", "1000n"])
+        lines.append(("THREAD %d %s%s %s" % (i, kinds[i], opt, " ".join(ops))).rstrip())
     main = ["L%d" % i for i in range(1, n + 1) if parent[i] == 0]
     if rng.random() < 0.25:
         main.insert(rng.randrange(len(main) + 1), "I")
